@@ -365,6 +365,9 @@ def check(case, ctx):
             a2 = p.parse(s)
             st2, _ = lib.call(a2.slice, i, j, inplace=True)
             ctx.evals += 2
+            if st == 'ok' and st2 == 'ok' and pmodel.observed(r) != pmodel.observed(a2):
+                # inplace False and True give the same result, in every field (whole-peptide annotations included)
+                ctx.fail('slice-inplace-differs', r.serialize(), a2.serialize(), text=s, span=[i, j])
             for how, stx, rx in (('method', st, r), ('method-inplace', st2, a2)):
                 if stx != 'ok':
                     ctx.fail('slice-raises', pmodel.render(expP), rx if how == 'method' else _, how=how, text=s, span=[i, j])
